@@ -38,6 +38,10 @@ MANIFEST = {
     "technique": "deterministic simulation: seeded interleaving search over lock/read/write steps of concurrent updaters; linearizability check of the recorded history against a sequential model",
 }
 BUDGET = {"quick": (1500, 60), "thorough": (150000, 1500)}
+# which lock file guards which tile must not depend on the interpreter (hash seed, pid): independently started
+# processes - separate `toasty` invocations, cluster jobs - must agree on it or they do not exclude each other
+XPROC_VIOLATION = ("lock-identity-differs-between-interpreters",
+                   "the lock file used for a tile differs between two interpreters running the same updates: independently started processes would not exclude each other")
 REQUIRED_PROBES = {
     "quick": ["lock_contended", "acquired_after_poll", "scheduled_during_torn_write"],
     "thorough": ["lock_contended", "acquired_after_poll", "scheduled_during_torn_write", "three_waiting"],
@@ -63,6 +67,8 @@ def make_source(mode, uid, mask_kind):
         dt = np.float32 if mode == ImageMode.F32 else np.float64
         arr = np.full((256, 256), float(uid), dtype=dt)
         arr += (xx % 7).astype(dt) / 16.0
+        if uid % 2 == 0:
+            arr[(yy + 3 * xx) % 41 == 0] = np.inf       # saturated samples are defined values
         arr[undefined] = np.nan
     elif mode == ImageMode.RGBA:
         arr = np.zeros((256, 256, 4), dtype=np.uint8)
@@ -131,9 +137,14 @@ def run_one(ch, env):
     history = []        # (step, task, kind, payload)
     polled = set()
 
+    lock_names = {}
+
     def on_lock(kind, rel):
         from ..kernel import current_task
         t = current_task()
+        if kind == "acquire":
+            lock_names.setdefault(rel, 0)
+            lock_names[rel] += 1
         if kind == "busy":
             polled.add(t.name)
             return
@@ -185,6 +196,7 @@ def run_one(ch, env):
 
     main_task = sim.run(main)
     common.sim_summary(sim, res)
+    res["xproc"] = {"lock_files_used": sorted(lock_names)}
     if any("write.truncated" in l or "write.partial" in l or "write.unlinked" in l for l in sim.trace) and sim.concurrent_steps:
         res.setdefault("probes", {})["scheduled_during_torn_write"] = res.get("probes", {}).get("scheduled_during_torn_write", 0) + _count_torn_switches(sim.trace)
 
